@@ -14,6 +14,7 @@ mod repair_driver;
 mod sim;
 mod sampler_driver;
 mod shred_driver;
+mod shredauth_driver;
 mod votor_driver;
 mod wire_driver;
 mod world;
@@ -77,6 +78,7 @@ fn main() -> anyhow::Result<()> {
         }
         "replay-sampler" => sampler_driver::run(&args, seed)?,
         "replay-shred" => shred_driver::run(&args, seed)?,
+        "replay-shredauth" => shredauth_driver::run(&args, seed)?,
         "replay-repair" => repair_driver::run(&args, seed)?,
         "replay-blockstore" => blockstore_driver::run(&args, seed)?,
         "replay-wire" => wire_driver::replay(
